@@ -203,8 +203,25 @@ def replay_walk(c):
 class _Table:
     """stands for the md.Trajectory: the table of dihedral angles per type"""
 
-    def __init__(self, t):
+    def __init__(self, t, n_frames=0):
         self.t = t
+        # what code above the dihedral computation may legitimately ask a trajectory: a few frames of a LARGE system
+        # (size-dependent paths, e.g. a frame-block bound in frames x atoms, are entered with walks of 2..4 frames)
+        self.n_frames = n_frames
+        self.n_atoms = 2500000
+        self.topology = _StubTopology()
+
+    def __len__(self):
+        return self.n_frames
+
+    def __getitem__(self, key):
+        """frames key of the trajectory (slice / index array), as md.Trajectory slices"""
+        idx = np.arange(self.n_frames)[key]
+        idx = np.atleast_1d(idx)
+        return _Table({k: (np.asarray(a)[idx], ids) for k, (a, ids) in self.t.items()}, len(idx))
+
+    def slice(self, key, copy=True):
+        return self[key]
 
 
 def _fake_dihedral_angles(traj, dihedral_type):
@@ -269,7 +286,7 @@ def replay_group(g):
     q = (len(chi) + 3) // 4
     for k in range(4):
         table(3, chi[k * q:(k + 1) * q], "chi%d" % (k + 1))
-    traj = _Table(cols)
+    traj = _Table(cols, n)
     bad = []
     saved, saved_md = rotamer.dihedral_angles, rotamer.md
     if g.get("real_conversion"):
